@@ -21,6 +21,7 @@ func stdConfs() []BConf {
 		{TTL: -1, Jitter: 0.5, Name: "c"},
 		{TTL: int64(time.Minute), Jitter: -1, Strategy: 1, Name: "c"},
 		{TTL: int64(time.Minute), Jitter: -1, Strategy: 2, Name: "c"},
+		{TTL: int64(time.Hour), Jitter: -1, DelAfter: int64(time.Minute), Name: "c"}, // short retention: reads long after expiry
 	}
 }
 
@@ -39,7 +40,8 @@ func ttlProfile(rng *rand.Rand) []int64 {
 		return stdTTLs
 	}
 
-	return []int64{0, int64(time.Hour), -int64(time.Hour), int64(time.Second), 1, -1, int64(time.Minute), -int64(time.Minute)}
+	return []int64{0, int64(time.Hour), -int64(time.Hour), int64(time.Second), 1, -1, int64(time.Minute), -int64(time.Minute),
+		-48 * int64(time.Hour)} // the last one: expired for longer than DeleteExpiredAfter, still retrievable as stale until a cleanup runs
 }
 
 // TestC07 runs random operation sequences on the three backends and prints observations.
@@ -48,7 +50,7 @@ func TestC07(t *testing.T) {
 	cf := NewCaseFile("C07", "From Cache Require Import Base Backend Spec Check.", "check_c07")
 	cf.Rule = "random sequences of 1..60 ops (Write/Read/Delete/ExpireAll/DeleteAll/Len/Walk/Load/Store, SkipRead 1/8) over 3..8 keys " +
 		"from {empty, 1 byte, prefix pairs, binary, 64-byte pair}, 4 values incl. nil/zero, context TTL in {none,+1h,-1h,1s,1ns,-1ns} with a per-sequence habit (never / standard mix / mostly), " +
-		"sleeps 0..2h on the fake clock, 7 configs (default/unlimited/finite TTL, jitter off/default/0.5, LRU, LFU) x 3 backends; " +
+		"sleeps 0..2h on the fake clock, 8 configs (default/unlimited/finite TTL, jitter off/default/0.5, LRU, LFU, DeleteExpiredAfter 1m) x 3 backends; " +
 		"non-trivial = contains a hit, an expired read and a miss/delete; distinct = distinct Gallina term"
 	confs := stdConfs()
 	n := e.Pick(100, 1500)
